@@ -134,6 +134,17 @@ def all_present(it, lst):
     return all(p is vc.CT or vc.c_is_true(p) for p, _ in lst.elems)
 
 
+def all_present_under(it, lst, pc):
+    """every element is present wherever pc holds"""
+    vc = it.vc
+    for p, _ in lst.elems:
+        if p is vc.CT or vc.c_is_true(p):
+            continue
+        if not vc.c_is_false(vc.c_and(pc, vc.c_not(p))):
+            return False
+    return True
+
+
 def symlist_positions(it, lst, n):
     """values at positions 0..n-1 (UNBOUND where the list is shorter) and Cond 'length == n'"""
     vc = it.vc
@@ -455,7 +466,30 @@ def leaf_eq(it, a, b, pc):
             return res
         raise Unsupported("== on lists with optional elements")
     if ta is SymDict or tb is SymDict:
-        raise Unsupported("== on symbolic dicts")
+        if ta is not SymDict:
+            a, b, ta, tb = b, a, tb, ta
+        if tb is not SymDict:
+            if not isinstance(b, dict):
+                return vc.CF
+            d2 = SymDict()
+            for k, v in b.items():
+                d2.keys.append(k)
+                d2.pres[k] = vc.CT
+                d2.vals[k] = v
+            b = d2
+        fr = it.frames[-1]
+        res = vc.CT
+        keys = list(a.keys) + [k for k in b.keys if k not in a.pres]
+        for k in keys:
+            pa = a.pres.get(k, vc.CF)
+            pb = b.pres.get(k, vc.CF)
+            same_pres = vc.c_or(vc.c_and(pa, pb), vc.c_and(vc.c_not(pa), vc.c_not(pb)))
+            res = vc.c_and(res, same_pres)
+            both = vc.c_and(pa, pb)
+            if not vc.c_is_false(both):
+                ve = it.truth(it.compare(ast.Eq, a.vals[k], b.vals[k], fr, pc), fr, pc)
+                res = vc.c_and(res, vc.c_or(vc.c_not(both), ve))
+        return res
     # ClassVal, FuncVal, ModuleVal...: identity
     return vc.CT if a is b else vc.CF
 
@@ -657,7 +691,7 @@ def call_native_method(it, recv, name, args, kwargs, pc):
             if isinstance(a, SymList):
                 real = to_real_seq(it, a)
                 if real is None:
-                    if all_present(it, a) and not any(I.has_special(e) for _, e in a.elems):
+                    if all_present_under(it, a, pc) and not any(I.has_special(e) for _, e in a.elems):
                         # every element is there: plain concatenation over the alternatives
                         items = [e for _, e in a.elems]
                         return vc.lift(lambda s, *xs: s.join(xs), [recv] + items, pc, it.sink)
@@ -1031,7 +1065,8 @@ def _seq_values(it, v, pc):
     out = []
     for pres, e in it.iter_items(v, it.frames[-1], pc):
         if pres is not vc.CT and not vc.c_is_true(pres):
-            return None
+            if not vc.c_is_false(vc.c_and(pc, vc.c_not(pres))):
+                return None
         out.append(e)
     return out
 
